@@ -143,7 +143,8 @@ Proof.
 Qed.
 
 Lemma build_joint_steps b bF :
-  b_steps b = [] -> b_cur_leader b = b_origin_leader b -> b_origin_leader b <> 0 -> build_joint b = Some bF ->
+  b_steps b = [] -> b_cur_leader b = b_origin_leader b -> b_origin_leader b <> 0 -> Tvoter b (joint_tl b) = true ->
+  build_joint b = Some bF ->
   let tl := joint_tl b in
   let ol := b_origin_leader b in
   tl <> 0 /\
@@ -156,7 +157,7 @@ Lemma build_joint_steps b bF :
     | TInside => ol <> tl /\ Ovoter b tl = false /\ Tvoter b ol = false
     end.
 Proof.
-  intros Hs0 Hcl Hol0 Hb tl ol. unfold build_joint in Hb.
+  intros Hs0 Hcl Hol0 Htv Hb tl ol. unfold build_joint in Hb. cbv zeta in Hb.
   set (b1 := fold_left joint_add_one (b_add b) b) in *.
   destruct (joint_adds_spec (b_add b) b) as (A1 & A2 & A3 & A4 & A5 & A6 & A7). fold b1 in A1, A2, A3, A4, A5, A6, A7.
   set (b2 := set_target_leader_if_not_exist b1) in *.
@@ -206,21 +207,20 @@ Proof.
         rewrite joint_remove_all_spec.
         destruct (v2_fields b3 false) as (V1 & V2 & V3).
         set (bv := exec_change_v2 b3 true false) in *.
-        destruct (kt_fields bv tl true (b_kregion bv)) as (K1 & K2 & K3 & K4 & K5 & K6).
+        destruct (kt_fields bv tl true (b_kregion b3)) as (K1 & K2 & K3 & K4 & K5 & K6).
         rewrite K1, K2, V1, V2, (V3 eq_refl), Est, EP, ED, ER, Ecl. cbn [andb app].
         rewrite <- !app_assoc. cbn [app]. split; [reflexivity|]. repeat split; auto.
     + (* leadership moves inside the joint state *)
       exists TInside. inversion Hb; subst bF; clear Hb.
       rewrite joint_remove_all_spec.
       assert (Eot : ol <> tl).
-      { intros C. (* tl is a target voter would contradict Etv; without that knowledge the transfer is simply absent *)
-        admit. }
+      { intros C. unfold Tvoter in Htv. fold tl in Htv. rewrite <- C in Htv. rewrite Htv in Etv. discriminate. }
       destruct (v2_fields b3 true) as (V1 & V2 & _).
       set (bv := exec_change_v2 b3 true true) in *.
-      assert (K : b_steps (set_kinds bv true (b_kregion bv)) = b_steps bv /\ b_remove (set_kinds bv true (b_kregion bv)) = b_remove bv)
-        by (split; reflexivity).
-      destruct K as (K1 & K2). rewrite K1, K2, V1, V2, Eol, Etl3, Est, EP, ED, ER, Ecl.
+      assert (K1 : forall x kl kr, b_steps (set_kinds x kl kr) = b_steps x) by reflexivity.
+      assert (K2 : forall x kl kr, b_remove (set_kinds x kl kr) = b_remove x) by reflexivity.
+      rewrite K1, K2, V1, V2, Eol, Etl3, Est, EP, ED, ER, Ecl.
       assert (En : negb (ol =? tl) = true) by (apply negb_true_iff, Z.eqb_neq; exact Eot).
       rewrite En. cbn [andb app].
       rewrite <- !app_assoc. cbn [app]. split; [reflexivity|]. repeat split; auto.
-Admitted.
+Qed.
